@@ -53,6 +53,7 @@ type oRule struct {
 	Value  string   `json:"value"`
 }
 type caseRec struct {
+	V1        *v1Rec  `json:"v1"`
 	Enabled   bool    `json:"enabled"`
 	Disables  []dRule `json:"disables"`
 	Overrides []oRule `json:"overrides"`
@@ -484,26 +485,27 @@ func run(in []byte) (*reg.Result, error) {
 				for f, d := range drops {
 					removeLocations(want.GetFile(filePath[f]).FileDescriptorProto(), d)
 				}
-				// the two ways of obtaining the configuration
-				yamlText := renderYAML(c)
-				var configs []struct {
-					how string
-					cfg bufconfig.GenerateManagedConfig
-				}
-				gy, err := bufconfig.ReadBufGenYAMLFile(strings.NewReader(yamlText))
-				if err != nil {
-					res.Violate("config-rejected/yaml-v2", map[string]any{"yaml": yamlText}, "the v2 buf.gen.yaml of a configuration of the model is rejected: %v", err)
+				// the ways of obtaining the configuration
+				var configs []namedConfig
+				descr := describe(c)
+				if c.V1 != nil {
+					text, cfgs, err := configsV1(*c.V1, i)
+					descr = strings.TrimSpace(text)
+					if err != nil {
+						res.Violate("config-rejected/yaml-"+c.V1.Version, map[string]any{"yaml": text}, "%v", err)
+					}
+					configs = cfgs
 				} else {
-					configs = append(configs, struct {
-						how string
-						cfg bufconfig.GenerateManagedConfig
-					}{"yaml-v2", gy.GenerateConfig().GenerateManagedConfig()})
-				}
-				if cc, err := buildConfig(c); err == nil {
-					configs = append(configs, struct {
-						how string
-						cfg bufconfig.GenerateManagedConfig
-					}{"constructors", cc})
+					yamlText := renderYAML(c)
+					gy, err := bufconfig.ReadBufGenYAMLFile(strings.NewReader(yamlText))
+					if err != nil {
+						res.Violate("config-rejected/yaml-v2", map[string]any{"yaml": yamlText}, "the v2 buf.gen.yaml of a configuration of the model is rejected: %v", err)
+					} else {
+						configs = append(configs, namedConfig{"yaml-v2", gy.GenerateConfig().GenerateManagedConfig()})
+					}
+					if cc, err := buildConfig(c); err == nil {
+						configs = append(configs, namedConfig{"constructors", cc})
+					}
 				}
 				for _, cf := range configs {
 					got, err := bufimage.CloneImage(base)
@@ -514,7 +516,7 @@ func run(in []byte) (*reg.Result, error) {
 						return
 					}
 					res.Count(1, 0)
-					caseInfo := map[string]any{"config": describe(c), "via": cf.how, "expected_sets": c.Sets, "expected_js": c.JsSets, "expected_sweep": c.Sweep, "expected_jssweep": c.JsSweep}
+					caseInfo := map[string]any{"config": descr, "via": cf.how, "expected_sets": c.Sets, "expected_js": c.JsSets, "expected_sweep": c.Sweep, "expected_jssweep": c.JsSweep}
 					if err := bufimagemodify.Modify(got, cf.cfg); err != nil {
 						res.Violate("modify-error/"+cf.how, caseInfo, "Modify failed: %v", err)
 						continue
@@ -539,7 +541,7 @@ func run(in []byte) (*reg.Result, error) {
 					}
 				}
 				if i < 2 {
-					res.Sample(map[string]any{"config": describe(c), "sets": c.Sets, "jssets": c.JsSets, "sweep": c.Sweep})
+					res.Sample(map[string]any{"config": descr, "sets": c.Sets, "jssets": c.JsSets, "sweep": c.Sweep})
 				}
 			}
 		}(wk)
